@@ -108,6 +108,18 @@ def search_export_history(failure):
         if a.get('files') != b.get('files'):
             return {'request': {'op': 'export_history', 'steps': h}, 'result': {'files': a.get('files'), 'results': a.get('results'),
                     'expected_files': b.get('files'), 'agree': False, 'note': 'expected_files = same calls in reverse order'}, 'kind': 'history'}
+    # a declaration whose doc comment contains a blank line, merged LAST into a shared file, must arrive intact (C15/C05);
+    # (merging something after it is known finding D7a and is not searched here)
+    from driver import replay as _rp
+    for h, tys in (([['export_all', 'A'], ['export_all', 'M']], ['A', 'M']), ([['export_all', 'B'], ['export_all', 'A'], ['export_all', 'Z']], None)):
+        if tys is None:
+            continue
+        got = run_history(h)
+        exp = _rp.expected_shared_file(tys)
+        act = got.get('files', {}).get('bindings/shared.ts')
+        if exp is not None and act != exp:
+            return {'request': {'op': 'export_history', 'steps': h}, 'result': {'files': got.get('files'), 'results': got.get('results'),
+                    'expected_files': {'bindings/shared.ts': exp}, 'agree': False, 'note': 'expected: notice, then each type\'s own chunk once, in name order'}, 'kind': 'history'}
     # a failed export must not be recorded as done (C17): obstacle before one step, removed before the retry of that step
     for first, second in (('A', 'B'), ('B', 'A')):
         h = [['export_all', first], ['hide', 'bindings/shared.ts'], ['export_all', second], ['restore', 'bindings/shared.ts'], ['export_all', second]]
